@@ -67,7 +67,7 @@ def gen_case(rng, hook, cat=None):
         init = rng.choice([0, 0, 1])
         mx = max(1, init) + rng.choice([1, 2, 3])
     nb = rng.range(1, 5)
-    budget = [rng.range(3, 30)]
+    budget = [rng.range(6, 30)]
 
     def acts(maxn):
         out = []
@@ -96,7 +96,7 @@ def gen_case(rng, hook, cat=None):
                       ["d=100", "sd"], ["d=0"], ["d=50", "d=50", "stop"]])
     if cat == "race" and not ctl:
         ctl = [rng.choice(["stop", "sd", "d=100"])]
-    k = rng.range(0, len(pre))
+    k = rng.range(0, len(pre)) if cat == "race" or rng.chance(1, 3) else len(pre)
     ops = pre[:k] + ctl[:1] + pre[k:] + ctl[1:]
     if cat == "late":
         ops += ["a=%s:%d" % (rng.choice("etr"), rng.below(nb)) for _ in range(rng.range(1, 3))]
@@ -375,15 +375,16 @@ def run(ctx: Ctx):
     dist = {}
     stats = {"events": 0, "yields": 0, "steps_max": 0, "accepted": 0, "refused_d": 0, "refused_s": 0, "refused_f": 0, "idle_exits": 0,
              "timeouts": 0, "spurious": 0, "hook_points": 0, "scheduling_samples": 0, "tasks_thrown": 0, "workers_peak_hist": {}}
-    if hb and ok_build:
-        argv = ctx.model_argv("tp")
-        if argv:
+    if hb:
+        # the implementation-only monitors run even when the proof layer is broken (DESIGN 5.2: search for the failing input)
+        model_ok = bool(ok_build and ctx.model_argv("tp"))
+        if True:
             cases = load_corpus(hook)
             g = rng.fork("cases")
             while len(cases) < n_cases:
                 cases.append(gen_case(g, hook))
             results = run_all(ctx, hb, cases)
-            answers = run_model(ctx, cases, results)
+            answers = run_model(ctx, cases, results) if model_ok else [None] * len(cases)
             n_corr = 0
             for c, r, ans in zip(cases, results, answers):
                 dist[c["cat"].split(":")[0]] = dist.get(c["cat"].split(":")[0], 0) + 1
@@ -418,12 +419,14 @@ def run(ctx: Ctx):
                         if len(f) > 6 and f[6] == "tp:popped":
                             stats["hook_points"] += 1
                 ctx.count_case("\n".join(c["lines"]) + c["run"] + (r.get("done") or ""), nontrivial=nontrivial)
-                ctx.cov["traces_validated_against_impl"] += 1
                 if len(ctx.cov["samples"]) < 6 and g.chance(1, 40):
                     ctx.sample({"cat": c["cat"], "lines": c["lines"], "run": c["run"], "mon": (r.get("mon") or "")[:300]})
                 if fails:
                     report(ctx, hb, c, r, ans, fails, "property")
                     continue
+                if ans is None:
+                    continue
+                ctx.cov["traces_validated_against_impl"] += 1
                 # correspondence: header lines all `ok`, every event answered as the harness expects (`*` = no snapshot possible)
                 hdr, evans = ans
                 bad = None
